@@ -46,8 +46,8 @@ RULE = (
     "affine lattice: dim {2,3} x scaling {0.1,0.25,0.5,1,2,3,10} x angles (2-D: {0,+-pi/2,pi,pi/6,1}; 3-D: every triple from {0,pi/2,0.3}^3, "
     "thorough {0,pi/2,0.3,-1,pi}^3) x translations {-2..2}^d*{1,0.5} (quick 3-D: {-2,0,1}^3*{1,0.5}) x points {origin, unit vectors, 3 generic; "
     "as batch and as single points} x point type {plain ndarray, Coordinate}; plus voxel / voxel-centre typed integer points under whole-voxel "
-    "translations and quarter turns. Corrections: images 2-D {(3,4),(4,4),(1,5)}, 3-D {(2,3,4),(3,3,3)} x payload {scalar, vector, series} x map "
-    "{identity; every whole-voxel translation in [-n-1,n+1] per axis (quick 3-D: {-n-1,-n,-1,0,1,n,n+1} for scalar, {-n-1,-1,0,1,n+1} for vector/series payload); quarter turns (+-pi/2, pi; in 3-D about each "
+    "translations and quarter turns. Corrections: images 2-D {(3,4),(4,4),(1,5)}, 3-D {(2,3,4),(3,3,3)} (thorough: + (5,5), (4,4,4)) x payload {scalar, vector, series} x map "
+    "{identity; every whole-voxel translation in [-n-1,n+1] per axis (quick 3-D: {-n-1,-n,-1,0,1,n,n+1} for scalar, {-n-1,-1,0,1,n+1} for vector/series payload, the latter also for (4,4,4)); quarter turns (+-pi/2, pi; in 3-D about each "
     "axis and, for several angles at once, every triple with >= 2 non-zero entries) on square / cubic shapes} x parametrisation {coordinate, voxel, "
     "voxel centre} x build {parameters set directly, fitted from point pairs} x API {TransformationCorrection, CoordinateTransformation} x "
     "destination system {same, larger, smaller, finer, coarser}; per object a BFS over the calls {A, A overwrite, B, array of A} on the live "
@@ -72,6 +72,7 @@ SCALINGS = [0.1, 0.25, 0.5, 1.0, 2.0, 3.0, 10.0]
 ANGLES2 = [0.0, PI / 2, -PI / 2, PI, PI / 6, 1.0]
 ANGLES3 = {"quick": [0.0, PI / 2, 0.3], "thorough": [0.0, PI / 2, 0.3, -1.0, PI]}
 SHAPES = {2: [(3, 4), (4, 4), (1, 5)], 3: [(2, 3, 4), (3, 3, 3)]}
+EXTRA_SHAPES_THOROUGH = {2: [(5, 5)], 3: [(4, 4, 4)]}
 PAYLOADS = ["scalar", "vector", "series"]
 PARAMS = ["coord", "voxel", "center"]
 QUARTER = [PI / 2, -PI / 2, PI]
@@ -99,7 +100,7 @@ def describe(tier):
         "scalings": SCALINGS,
         "angles_2d": ANGLES2,
         "angles_3d_per_axis": ANGLES3[tier],
-        "image_shapes": {str(k): v for k, v in SHAPES.items()},
+        "image_shapes": {str(k): v + (EXTRA_SHAPES_THOROUGH[k] if tier == "thorough" else []) for k, v in SHAPES.items()},
         "payloads": PAYLOADS,
         "parametrisations": PARAMS,
         "shift_range": "[-n-1, n+1] per axis" + ("" if tier == "thorough" else " (3-D: {-n-1,-n,-1,0,1,n,n+1})"),
@@ -123,12 +124,13 @@ def cases(tier):
             out.append({"kind": "affine-typed", "dim": dim, "param": param})
     # ---- corrections
     for dim in (2, 3):
-        for shape in SHAPES[dim]:
+        for shape in SHAPES[dim] + (EXTRA_SHAPES_THOROUGH[dim] if tier == "thorough" else []):
             square = len(set(shape)) == 1
+            extra = shape in EXTRA_SHAPES_THOROUGH[dim]
             for param in PARAMS:
                 for payload in PAYLOADS:
                     # TransformationCorrection, parameters set directly, same systems: the full map space
-                    if dim == 2 or tier == "thorough" or payload == "scalar":
+                    if dim == 2 or payload == "scalar" or (tier == "thorough" and not extra):
                         for k0 in shifts_of(shape[0], tier, dim):
                             out.append(_cc("TC", "set", "same", shape, payload, param, {"type": "shift", "k0": k0, "range": "full"}, tier))
                     else:  # quick, 3-D, vector / series payload: the edge set {-n-1,-1,0,1,n+1} per axis
@@ -152,7 +154,7 @@ def cases(tier):
                     if square and (dim == 2 or tier == "thorough"):
                         out.append(_cc(api, "fit", "same", shape, "scalar", param, {"type": "turn"}, tier))
                 out.append(_cc("CT", "fit", "fine", shape, "scalar", param, {"type": "shift", "k0": None, "range": "unit"}, tier))
-                if tier == "thorough":
+                if tier == "thorough" and param != "coord":  # isometry fit: voxel-type points are converted to centre coordinates
                     out.append(_cc("CT", "fit-isometry", "same", shape, "scalar", param, {"type": "shift", "k0": None, "range": "edge"}, tier))
     # ---- RotationCorrection
     if INCLUDE_ROTATION_CORRECTION:
@@ -697,9 +699,10 @@ def run_corr(case, r):
         if moved:
             r.nontriv((shape, payload, param, build, api, sysv, mp))
 
-        # ---- fitted maps: is the premise (the map IS the intended one) met?
+        # ---- fitted maps: is the premise (the map IS the intended one) met?  Judged on the forward map only:
+        # f_fit(f_exact^-1(x)) = x at every destination voxel centre (index), to 1/4 voxel.
         if buildc == "fit":
-            Minv = np.array(transpose(M_eff), dtype=float)
+            Mf = np.array(M_eff, dtype=float)
             te = np.array([float(x) for x in t_eff])
             if eff_param == "coord":
                 Ad = np.array([[float(x) for x in row] for row in a_matrix(dim, dst.vs)])
@@ -709,11 +712,15 @@ def run_corr(case, r):
                 X, unit = np.array(dsts, dtype=float) + 0.5, 1.0
             else:
                 X, unit = np.array(dsts, dtype=float), 1.0
-            exact = (X - te[None, :]) @ Minv.T
-            dev = float(np.max(np.abs(np.asarray(T.inverse_array(X), dtype=float) - exact))) / unit
+            pre = (X - te[None, :]) @ Mf  # rows: M^T (x - t)
+            dev = float(np.max(np.abs(np.asarray(T.call_array(pre), dtype=float) - X))) / unit
             if not dev < 0.25:
                 r.count("fit_missed")
                 r.outcome(("fit-missed", cls, param))
+                if mp[0] == "shift":
+                    # the preconditioned fit solves a pure translation exactly; without it CoordinateTransformation
+                    # (constructible only through the fit) could not express the map at all
+                    r.fail(f"C09/fit/param={param}/{cls}", "point pairs related by an exact whole-voxel translation are fitted to within 1/4 voxel", map=mp, deviation_in_voxels=dev, translation=np.asarray(T.translation), scaling=float(T.scaling), rotation=np.asarray(T.rotation))
                 continue
 
         # ---- explicit-state search over (correction, A, B)
@@ -791,6 +798,8 @@ def run_corr(case, r):
         r.count("transitions", transitions + nseq)
         r.count("traces", transitions + nseq)
         r.outcome((shape, payload, sysv, [None if v is None else list(v) for v in srcs]))
+        if moved:
+            r.notes.setdefault("samples", [{"api": apin, "shape": list(shape), "payload": payload, "parametrisation": param, "build": build, "system": sysv, "map": [mp[0], list(mp[1])], "reachable_states": len(seen), "transitions": transitions + nseq}])
 
 
 def _meq(a, b):
